@@ -183,10 +183,19 @@ def weight_specs(N, scalar_ok=True, zero_ok=True, kinds=("none", "scalar", "arra
         form = draw(st.sampled_from(["nan", "tuple"])) if dtype == "float" else draw(
             st.sampled_from(["plain", "tuple"]))
         rough = dtype == "float" and draw(st.integers(0, 3)) == 0
+        wide = False
         if rough:
             # weights that do not add exactly in binary floating point (0.1, 0.35, 1.7, ...)
             vals = draw(st.lists(st.one_of(st.sampled_from([0.1, 0.35, 0.7, 1.7, 0.3, 2.5, 0.05, 1.0] + ([0.0] if lo == 0 else [])),
                                            st.floats(0.01, 10.0, allow_nan=False)), min_size=N, max_size=N))
+        elif dtype == "float" and draw(st.integers(0, 5)) == 0:
+            # weights of very different magnitude in one cube (still exact: m x 2^17 / 1024 next to 1..64 / 1024):
+            # a heavy cell next to a cell whose total weight is 10^9 times smaller
+            wide = True
+            vals = draw(st.lists(st.one_of(st.integers(1, 2 ** 14).map(lambda m: m * 2 ** 17),
+                                           st.sampled_from([1, 2, 3, 8, 64, 1024]),
+                                           st.sampled_from([1, 2, 3, 8, 64, 1024] + ([0] if lo == 0 else []))),
+                                 min_size=N, max_size=N))
         elif dtype == "float":
             vals = draw(st.lists(st.one_of(st.sampled_from([lo * 1024, 1024, 512, 2048]),
                                            st.integers(lo, 2 ** 14)), min_size=N, max_size=N))
@@ -200,7 +209,7 @@ def weight_specs(N, scalar_ok=True, zero_ok=True, kinds=("none", "scalar", "arra
         junk = draw(st.lists(st.integers(0, 2), min_size=N, max_size=N))
         as_list = draw(st.booleans()) if N >= 1 else False
         return {"kind": "array", "dtype": dtype, "form": form, "values": vals, "valid": valid,
-                "junk": junk, "as_list": as_list, "rough": rough}
+                "junk": junk, "as_list": as_list, "rough": rough, "wide": wide}
 
     return build()
 
